@@ -86,6 +86,9 @@ func (f *MakeArray) Call(s *slip.Scope, args slip.List, depth int) slip.Object {
 	elementType := slip.TrueSymbol
 	switch ta := args[0].(type) {
 	case slip.Fixnum:
+		if ta < 0 {
+			slip.TypePanic(s, depth, "dimensions", ta, "non-negative fixnum", "list of non-negative fixnums")
+		}
 		dims = []int{int(ta)}
 	case slip.List:
 		for _, v := range ta {
